@@ -839,6 +839,8 @@ class BosonicBackend(BaseBosonic):
         if modes is None:
             modes = self.get_modes()
 
+        # the data below are returned in ascending order of the mode indices; label them accordingly
+        modes = sorted(modes)
         mode_names = ["q[{}]".format(i) for i in modes]
 
         # This next check is a hack if the user has deleted all the modes
